@@ -6,7 +6,7 @@ from ..cfg import CFG, call_sites
 from ..facts import strip_generics
 from ..origin import origins, origin_calls, VALUE_CALLS, IDENTITY_CALLS
 from ..report import Skip
-from ..throttle import implies
+from ..throttle import implies, eval_cond
 
 IF = "ignore_files::filter::IgnoreFilter"
 
@@ -155,6 +155,8 @@ def run(ctx):
                       "order-preserving combinators only (no FuturesUnordered / buffer_unordered / hash-map iteration)")
     ctx.rule("R03.4", "consumers re-check the scope of positive matches: check_dir and IgnoreFilterer::check_event treat Match::Ignore(glob) as a "
                       "rejection only when glob.from() is a prefix of the path (or absent); a whitelist match passes")
+    ctx.rule("R03.6", "every line of an ignore file / glob list reaches GitignoreBuilder::add_line unless it is empty or a comment, nothing ends the line "
+                      "loop early except an add_line error; an empty per-directory node is inserted only when the directory has none yet")
     ctx.rule("R03.5", "per-directory grouping: every GitignoreBuilder::add_line gets Some(applies_in) where applies_in is "
                       "get_applies_in_path(origin, file), and the compiled set is stored under that same directory's key")
 
@@ -265,6 +267,62 @@ def run(ctx):
 
     # ---- R03.4 consumers: complete verdict tables over the Match outcome and the scope re-check
     consumers(ctx, "R03.4")
+
+    # ---- R03.6 line loops and node creation
+    try:
+        EMPTYL, COMMENT = "str::is_empty(line)", "str::starts_with(line, '#')"
+        for fname in ("new", "add_file", "add_globs"):
+            base = ctx.anchor_fn("R03.6", IF + "::" + fname)
+            body = ([base] + [c for c in facts.children(base) if c.kind == "coroutine"])[-1]
+            en = pathx.Enum(interesting=lambda d: any(strip_generics(d).endswith(x) for x in ("GitignoreBuilder::add_line", "radix_trie::trie::insert")))
+            ps = en.paths(thir.root(body))
+            its = set()
+
+            def collect(evs):
+                for e in evs:
+                    if e[0] == "loop":
+                        if e[2] in ("for str::lines(content)", "for globs"):
+                            its.update(e[1])
+                        for it in e[1]:
+                            collect(it)
+            for q in ps:
+                collect(q.ev)
+            ctx.floor("R03.6", "line-loop iteration paths in " + fname, len(its), 2)
+            n_add = n_skip = 0
+            for it in its:
+                adds = [e for e in it if e[0] == "call" and strip_generics(e[1]).endswith("GitignoreBuilder::add_line")]
+                # a skip is justified when the conditions on the path cannot hold for a line that is neither empty nor a comment
+                skipped_because = any(e[0] == "branch" and eval_cond(e[1], {EMPTYL: False, COMMENT: False}) is (not e[2]) for e in it)
+                brk = ("loop-break",) in it
+                ctx.require(not brk, "R03.6", "lines:%s:no-early-stop" % fname, "no line ends the loop early", body.loc(body.line), detail=pathx.show_events(it)[:200],
+                            fail="IgnoreFilter::%s stops reading at a particular line (%s): the patterns after it are never loaded" % (fname, pathx.show_events(it)[:120]))
+                if adds:
+                    n_add += 1
+                    ctx.require(len(adds) == 1 and pathx.desc(adds[0][2]["a"][2]) == "line", "R03.6", "lines:%s:added-once" % fname, "the line itself is added once",
+                                body.loc(body.line))
+                else:
+                    n_skip += 1
+                    ctx.require(skipped_because, "R03.6", "lines:%s:skip-only-blank-or-comment" % fname, "a line is skipped only when it is empty or a comment", body.loc(body.line),
+                                detail=pathx.show_events(it)[:200],
+                                fail="IgnoreFilter::%s skips lines that are neither empty nor comments (%s): their patterns are never loaded" % (fname, pathx.show_events(it)[:160]))
+            ctx.require(n_add >= 1, "R03.6", "lines:%s:some-added" % fname, "lines are added", body.loc(body.line))
+            if fname != "new":
+                NONE = "Option::is_none(trie::get(self.ignores, applies_in_str))"
+                n_ins = 0
+                for q in ps:
+                    for i, e in enumerate(q.ev):
+                        if e[0] == "call" and strip_generics(e[1]).endswith("radix_trie::trie::insert") and pathx.desc(e[2]["a"][0]).lstrip("^") == "self.ignores":
+                            n_ins += 1
+                            guard = any(b[0] == "branch" and implies(b[1].replace("^", "").replace("Option::is_some(", "Not Option::is_none("), b[2], NONE, True) for b in q.ev[:i])
+                            ctx.require(guard, "R03.6", "node-created-only-if-absent:" + fname, "the empty node is inserted only when the directory has no node yet",
+                                        body.loc(body.line), detail=pathx.show_events(q.ev[:i + 1])[-200:],
+                                        fail="IgnoreFilter::%s overwrites the existing node of a directory with an empty one: the patterns loaded earlier for that directory are lost" % fname)
+                    absent_no_insert = [q for q in ps if any(b[0] == "branch" and implies(b[1].replace("^", "").replace("Option::is_some(", "Not Option::is_none("), b[2], NONE, True) for b in q.ev)
+                                        and not any(e[0] == "call" and strip_generics(e[1]).endswith("radix_trie::trie::insert") for e in q.ev)]
+                ctx.require(n_ins >= 1 and not absent_no_insert, "R03.6", "node-created-when-absent:" + fname, "a directory without a node gets one before lines are added",
+                            body.loc(body.line), fail="IgnoreFilter::%s does not create the node of a directory that has none: its patterns are silently dropped" % fname)
+    except Skip:
+        pass
 
     # ---- R03.5 per-directory grouping
     try:
